@@ -30,7 +30,10 @@ CFG = {
             "sampled: up to 2 000 (quick, depth <=3) / 40 000 (thorough, depth <=5) trees in total: <=28 entries, directory modes "
             "755/700/500/300/000/555/777, file modes 644/600/444/000/755, 22 link-target kinds (outside dir/file rel+abs, through a "
             "non-searchable directory, sibling layer dir/file, own layer, ., .., sibling entry, dangling rel/abs, two-link cycles, "
-            "self-loops), 12% top-level links, canary tree + 3 sibling layers (prefix-sharing names, own toml/SBOM files) in every case, "
+            "self-loops), 12% top-level links; 12 layer names incl. dotted and file-like ones (lyr.x, lyr.x.y, .hidden, `lyr.`, lyr.sbom, lyr.toml, "
+            "lyr.toml.toml, lyr.sbom.cdx, a.b), each also in a directed case per API and user; in every case a canary tree and the sibling "
+            "layers a confusion of names could reach - <n>x, <n>.x, <n>.sbom, <n>.toml, <n>.sbom.cdx, <n> minus its last byte, every stem of "
+            "<n> (a.b.c -> a.b, a) - each with its own directory, <s>.toml and all three <s>.sbom.<fmt>.json, plus an unrelated sibling; "
             "40% as uid 65534 (a quarter of those with a restricted layers directory). "
             "non-trivial = the layer exists, its metadata file is a document, and it holds a symlink (or is one) or a directory whose owner "
             "lacks r, w or x; distinct = distinct input line",
